@@ -134,4 +134,47 @@ theorem goodO_call_pairwise {hist : List Obs} (hg : Good GoodAtO hist) (h : Hid)
         exact ha x hx
       · simp [e] at hy
 
+theorem two_le_filter {α : Type} (p : α → Bool) : ∀ (l : List α) (i j : Nat) (a b : α), i < j →
+    l[i]? = some a → l[j]? = some b → p a = true → p b = true → 2 ≤ (l.filter p).length := by
+  intro l
+  induction l with
+  | nil => intro i j a b _ h; simp at h
+  | cons x xs ih =>
+    intro i j a b hij ha hb pa pb
+    cases j with
+    | zero => omega
+    | succ j =>
+      simp only [List.getElem?_cons_succ] at hb
+      cases i with
+      | zero =>
+        simp only [List.getElem?_cons_zero, Option.some.injEq] at ha
+        subst ha
+        have hm : b ∈ xs.filter p := List.mem_filter.mpr ⟨List.mem_of_getElem? hb, pb⟩
+        have := List.length_pos_of_mem hm
+        simp only [List.filter_cons, pa, if_true, List.length_cons]
+        omega
+      | succ i =>
+        simp only [List.getElem?_cons_succ] at ha
+        have := ih i j a b (by omega) ha hb pa pb
+        simp only [List.filter_cons]
+        split <;> simp <;> omega
+
+/-- an executable sufficient condition for `oneD` -/
+theorem oneD_of_count {s : State} (h : (s.threads.filter (fun t => t.kind == .dispatcher)).length ≤ 1) : oneD s := by
+  intro i j hi hj
+  simp only [kinds, List.getElem?_map] at hi hj
+  cases ha : s.threads[i]? with
+  | none => simp [ha] at hi
+  | some a =>
+    cases hb : s.threads[j]? with
+    | none => simp [hb] at hj
+    | some b =>
+      simp [ha] at hi; simp [hb] at hj
+      rcases Nat.lt_trichotomy i j with hlt | heq | hgt
+      · have := two_le_filter (fun t => t.kind == .dispatcher) s.threads i j a b hlt ha hb (by simp [hi]) (by simp [hj])
+        omega
+      · exact heq
+      · have := two_le_filter (fun t => t.kind == .dispatcher) s.threads j i b a hgt hb ha (by simp [hj]) (by simp [hi])
+        omega
+
 end WD.ProofsObs
